@@ -176,19 +176,20 @@ pub fn run(ctx: &Ctx) -> Report {
     }
   }
   // real (sparse) files through create
-  for size in [0u64, 1, (1 << 21) + 1, (1 << 22), (1 << 24) + 1] {
+  for (size, positional) in [0u64, 1, (1 << 21) + 1, (1 << 22), (1 << 24) + 1].into_iter().flat_map(|s| [(s, false), (s, true)]) {
     let sb = Sandbox::new(&ctx.work, "c15");
     let f = std::fs::File::create(sb.path("content")).unwrap();
     f.set_len(size).unwrap();
     drop(f);
     // other options of create ride along; they must not influence the choice
     let noise = super::create_noise(&mut crate::rng::Rng(ctx.seed ^ size ^ 0xC15), &[]);
-    let mut args: Vec<String> = ["torrent", "create", "--input", "content", "--output", "o.torrent"].iter().map(|s| s.to_string()).collect();
+    // (the input named by --input, or as the positional argument: the same request)
+    let mut args: Vec<String> = if positional { ["torrent", "create", "content", "--output", "o.torrent"].iter().map(|s| s.to_string()).collect() } else { ["torrent", "create", "--input", "content", "--output", "o.torrent"].iter().map(|s| s.to_string()).collect() };
     args.extend(noise.iter().cloned());
-    let out = Cmd::args_owned(&ctx.imdl, args).cwd(&sb.root).run();
-    report.case(Some(0xC15_0000_0000 + size));
-    report.hit("create:auto-piece-length");
-    let case = json!({"create_sparse_file_size": size, "other_options": noise});
+    let out = if positional { Cmd::args_owned(&ctx.imdl, args).cwd(&sb.root).literal().run() } else { Cmd::args_owned(&ctx.imdl, args).cwd(&sb.root).run() };
+    report.case(Some(0xC15_0000_0000 + size * 2 + positional as u64));
+    report.hit(if positional { "create:auto-piece-length-positional-input" } else { "create:auto-piece-length" });
+    let case = json!({"create_sparse_file_size": size, "other_options": noise, "positional_input": positional});
     if !out.ok() {
       report.fail("property", "create-auto-rejected", case, format!("create without --piece-length failed: {}", out.stderr_s()));
       continue;
